@@ -22,6 +22,8 @@ func checkC19(c *Check, a *Anchors) {
 	c19InitPath(c, a)
 	c19NotTemplated(c, a)
 	renderedOutputVerbatim(c, a)
+	c19AssignmentStoredVerbatim(c, a)
+	c10CliGlobals(c, a) // the forwarded arguments and NAME=value assignments are bound before EVERY entry point that compiles tasks (Run and Status): a query that starts before the binding sees an empty CLI_ARGS
 }
 
 func c19NotTemplated(c *Check, a *Anchors) {
@@ -703,4 +705,43 @@ func mentionsViaMulti(info *types.Info, body ast.Node, e ast.Node, obj types.Obj
 		return !found
 	})
 	return found
+}
+
+// c19AssignmentStoredVerbatim: NAME=value stores exactly the two halves of the argument.
+func c19AssignmentStoredVerbatim(c *Check, a *Anchors) {
+	c.Rule("assignment-stored-verbatim", "in args.Parse the variable is stored under, and with, the two halves of the argument exactly as the split produced them — plain variables, not the result of a further call (TrimSpace, ToLower, Unquote …): a value that starts or ends with a space, a tab or a newline must reach {{shellQuote .X}} byte for byte")
+	fb := c.P.Func(PkgArgs, "", "Parse")
+	if fb == nil {
+		c.Errorf("assignment-stored-verbatim: args.Parse not found")
+		return
+	}
+	c.Fn(fb)
+	info := fb.Info()
+	n := 0
+	for _, call := range callsIn(fb, true) {
+		if !isFunc(callee(info, call), PkgAst, "Vars", "Set") || len(call.Args) != 2 {
+			continue
+		}
+		n++
+		var rewritten []string
+		judge := func(what string, e ast.Expr) {
+			e = ast.Unparen(e)
+			if inner, ok := e.(*ast.CallExpr); ok {
+				if tv, ok := info.Types[inner.Fun]; !ok || !tv.IsType() {
+					rewritten = append(rewritten, what+" is `"+exprStr(e)+"`")
+				}
+			}
+		}
+		judge("the name", call.Args[0])
+		if cl, ok := ast.Unparen(call.Args[1]).(*ast.CompositeLit); ok {
+			for _, el := range cl.Elts {
+				if kv, ok := el.(*ast.KeyValueExpr); ok {
+					judge("the "+exprStr(kv.Key), kv.Value)
+				}
+			}
+		}
+		c.Decide(len(rewritten) == 0, "assignment-stored-verbatim", "store@"+fnDisplay(fb), call.Pos(), "name and value stored as split",
+			"the command-line assignment is rewritten before it is stored ("+strings.Join(rewritten, "; ")+"): leading / trailing whitespace (or whatever the call removes) of the value never reaches the task")
+	}
+	c.Floor("assignment-stored-verbatim", n, 1)
 }
